@@ -153,6 +153,7 @@ type RunReport struct {
 	Nontrivial    bool         `json:"nontrivial"`
 	SinkFaults    int          `json:"sink_faults,omitempty"`
 	DetChecked    int          `json:"det_checked,omitempty"` // calls re-run alone under a second map order
+	Discarded     string       `json:"discarded,omitempty"`   // why the run was not simulated
 	RepeatChecked int          `json:"repeat_checked,omitempty"`
 	LinOps        int          `json:"lin_ops,omitempty"`
 	LinConcurrent int          `json:"lin_concurrent_pairs,omitempty"`
